@@ -48,7 +48,7 @@
         kani::cover!(!ok && n == 65535);
     }
 
-    // @harness ids=C09,C01 tier=quick kind=proof units=app::parse::count::CountSequence::parse timeout=300 note="prefixed objects, T = Prefix<u16, g12v1> (2+11 bytes), 40 bytes available: consumes exactly 13*count bytes or fails without consuming, all counts"
+    // @harness ids=C09,C01 tier=thorough kind=proof units=app::parse::count::CountSequence::parse timeout=300 note="prefixed objects, T = Prefix<u16, g12v1> (2+11 bytes), 40 bytes available: consumes exactly 13*count bytes or fails without consuming, all counts"
     #[kani::proof]
     fn vk_c09_prefixed_parse_u16_g12v1() {
         let (ok, n) = count_parse_contract::<Prefix<u16, Group12Var1>, 41>(2 + spec::object_size(12, 1));
